@@ -51,7 +51,12 @@ def run(ctx):
         kelvin = rng.uniform(285.5, 304.5)
         base = prt_count_for(tab, sat, kelvin)
         phase = rng.randrange(5)
-        nums, prt, ict, space = make_pass(rng, n + 4, 1, phase, base)
+        # first line number: 1, or such that the pass ENDS at the top of the 16-bit line-number field; the numbers reach the
+        # calibration in the dtype the readers hand over (KLM unsigned, POD signed 16 bit) or as plain integers
+        top = {0: None, 3: 65534, 4: 32767}.get(k % 5)
+        n0 = 1 if top is None else top - rng.randint(0, 4) - (n + 4) + 1
+        nums, prt, ict, space = make_pass(rng, n + 4, n0, phase, base)
+        nd = {65534: ">u2", 32767: rng.choice([">i2", ">u2"])}.get(top) or rng.choice([None, ">u2", ">i2"])
         if k % 3 == 2:
             # a data gap aligned with the PRT cycle (the four thermometer lines after a reset line missing): the anchor
             # and monotonicity clauses must hold on such a pass, too (phase freedom is only compared on gap-free passes)
@@ -61,9 +66,9 @@ def run(ctx):
                 sel = [i for i in range(len(nums)) if not (i0 < i <= i0 + 4)]
                 nums, prt, ict, space = ([a[i] for i in sel] for a in (nums, prt, ict, space))
         payload = {"sat": sat, "chan": chan, "nums": nums, "prt": prt, "ict": ict, "space": space, "counts": list(range(1024)),
-                   "info": {"n": len(nums), "n0": 1, "gaps": False, "kinds": [], "phase": phase}}
+                   "info": {"n": len(nums), "n0": n0, "gaps": False, "kinds": [], "phase": phase, "num_dtype": nd}}
         # (i) monotone, all counts
-        got = c05.real_thermal(sat, chan, nums, list(prt), list(ict), list(space), list(range(1024)))
+        got = c05.real_thermal(sat, chan, nums, list(prt), list(ict), list(space), list(range(1024)), nd)
         if got[0] != "ok":
             ctx.violation("%s channel %d: calibrate_thermal outcome %s on an ordinary pass" % (sat, chan, got[0]), payload,
                           cls="thermal-outcome:%s" % got[0])
@@ -87,7 +92,7 @@ def run(ctx):
             with warnings.catch_warnings():
                 warnings.simplefilter("ignore")
                 b2 = calibrate_thermal(cnt, np.asarray(prt, dtype=float), np.asarray(ict, dtype=float),
-                                       np.asarray(space, dtype=float), np.asarray(nums), chan, Calibrator(sat))
+                                       np.asarray(space, dtype=float), np.asarray(nums, dtype=nd), chan, Calibrator(sat))
             dev = np.abs(b2[:, 0] - np.array([float(t) for t in tprt]))
             ok_rows = [float(t) for t in tprt]
             if 285 <= min(ok_rows) and max(ok_rows) <= 305:
@@ -102,9 +107,9 @@ def run(ctx):
             ctx.case((sat, chan, "anchor", k), branch="anchor/ch%d" % chan)
         # (iii) phase freedom: drop the first k lines
         cs = sorted(set([rng.randint(100, 900) for _ in range(6)]))
-        full = c05.real_thermal(sat, chan, nums, list(prt), list(ict), list(space), cs)
+        full = c05.real_thermal(sat, chan, nums, list(prt), list(ict), list(space), cs, nd)
         for drop in ((1, 2, 3, 4) if nums[-1] - nums[0] + 1 == len(nums) else ()):
-            part = c05.real_thermal(sat, chan, nums[drop:], list(prt[drop:]), list(ict[drop:]), list(space[drop:]), cs)
+            part = c05.real_thermal(sat, chan, nums[drop:], list(prt[drop:]), list(ict[drop:]), list(space[drop:]), cs, nd)
             if part[0] != "ok" or full[0] != "ok":
                 ctx.violation("%s channel %d: outcome %s after dropping %d lines" % (sat, chan, part[0], drop), payload, cls="phase-outcome")
                 break
@@ -126,14 +131,14 @@ def run(ctx):
         # (iv) pixel locality
         c_a = [500, 300, 700]
         c_b = [500, 900, 100]
-        ra = c05.real_thermal(sat, chan, nums, list(prt), list(ict), list(space), c_a)
-        rb = c05.real_thermal(sat, chan, nums, list(prt), list(ict), list(space), c_b)
+        ra = c05.real_thermal(sat, chan, nums, list(prt), list(ict), list(space), c_a, nd)
+        rb = c05.real_thermal(sat, chan, nums, list(prt), list(ict), list(space), c_b, nd)
         if ra[0] == "ok" and rb[0] == "ok" and not np.array_equal(np.nan_to_num(ra[1][:, 0]), np.nan_to_num(rb[1][:, 0])):
             ctx.violation("%s channel %d: a pixel's BT depends on the other pixels of its line" % (sat, chan), payload, cls="pixel-local")
         # ... also for counts beyond the space count (non-positive radiance: no temperature), alone and inside a warm scene
         for c0 in (min(1023, max(space) + 8), 1023, rng.randint(200, 800)):
-            alone = c05.real_thermal(sat, chan, nums, list(prt), list(ict), list(space), [c0])
-            scene = c05.real_thermal(sat, chan, nums, list(prt), list(ict), list(space), [c0, 300, 420, 380])
+            alone = c05.real_thermal(sat, chan, nums, list(prt), list(ict), list(space), [c0], nd)
+            scene = c05.real_thermal(sat, chan, nums, list(prt), list(ict), list(space), [c0, 300, 420, 380], nd)
             if alone[0] == "ok" and scene[0] == "ok" and not np.array_equal(alone[1][:, 0], scene[1][:, 0], equal_nan=True):
                 i = int(np.nonzero(~((alone[1][:, 0] == scene[1][:, 0]) | (np.isnan(alone[1][:, 0]) & np.isnan(scene[1][:, 0]))))[0][0])
                 ctx.violation("%s channel %d line %d: count %d reads %s K when calibrated alone and %s K inside a warm scene" % (
@@ -143,7 +148,7 @@ def run(ctx):
         # model correspondence on a subset of counts (a warm scene with two samples beyond the space count, so that no
         # sample lies just below the space count)
         sub = [200, 300, 380, 420, 500, 640, min(1023, max(space) + 8), 1023]
-        bt = c05.real_thermal(sat, chan, nums, list(prt), list(ict), list(space), sub)[1]
+        bt = c05.real_thermal(sat, chan, nums, list(prt), list(ict), list(space), sub, nd)[1]
         j = lambda xs: ",".join(str(x) for x in xs)
         lines.append("c05 %s %d %s %s %s %s %s" % (sat, chan, j(nums), j(prt), j(ict), j(space), j(sub)))
         pend.append((bt, payload))
@@ -170,7 +175,8 @@ def replay(ctx, path):
     if "prt" not in p:
         print("replay: no concrete pass in the file (%s)" % (p or body.get("broken_theorems_or_obligations")))
         return 1
-    got = c05.real_thermal(p["sat"], p["chan"], p["nums"], list(p["prt"]), list(p["ict"]), list(p["space"]), list(range(1024)))
+    nd = (p.get("info") or {}).get("num_dtype")
+    got = c05.real_thermal(p["sat"], p["chan"], p["nums"], list(p["prt"]), list(p["ict"]), list(p["space"]), list(range(1024)), nd)
     bad = False
     if got[0] == "ok":
         for row in got[1]:
@@ -180,8 +186,8 @@ def replay(ctx, path):
         if "drop" in p:
             d = p["drop"]
             cs = [200, 500, 800]
-            full = c05.real_thermal(p["sat"], p["chan"], p["nums"], list(p["prt"]), list(p["ict"]), list(p["space"]), cs)
-            part = c05.real_thermal(p["sat"], p["chan"], p["nums"][d:], list(p["prt"][d:]), list(p["ict"][d:]), list(p["space"][d:]), cs)
+            full = c05.real_thermal(p["sat"], p["chan"], p["nums"], list(p["prt"]), list(p["ict"]), list(p["space"]), cs, nd)
+            part = c05.real_thermal(p["sat"], p["chan"], p["nums"][d:], list(p["prt"][d:]), list(p["ict"][d:]), list(p["space"][d:]), cs, nd)
             N = len(p['nums']); a, b = full[1][d + 26:N - 25], part[1][26:N - d - 25]
             bad = bad or not np.allclose(np.nan_to_num(a), np.nan_to_num(b), atol=1e-9)
     else:
